@@ -198,14 +198,10 @@ func main() {
 
 	f := &findings{}
 	bfs := newBFS(w)
-	w.pairTransitions(f, bfs)
-	w.lap("pair transitions (valid orders + faulty variants)")
+	w.singleTransitions(f, bfs)
+	w.lap("single transitions (pairs: valid orders, faulty variants, input cases; walks; serial skew)")
 	bfs.run(f, w.p.bfsDepth)
 	w.lap("bfs chains")
-	w.walks(f)
-	w.lap("walks")
-	w.serialSkew(f)
-	w.lap("serial skew")
 
 	f.report(w)
 	w.evidence(fams, bfs)
